@@ -187,6 +187,26 @@ func (c14) RunCase(c *fw.Ctx, rng *fw.RNG, batch, i int) {
 			_ = p
 		}
 	}
+	// the local walk (WalkLocal: the in-memory tree, links not followed) reports paths too; a visit whose node is
+	// a link is left out, because resolving a path loads a link it ends at
+	{
+		var lerr error
+		c.Guard("C14:WalkLocal", func() {
+			lerr = traversal.Progress{Cfg: cfg}.WalkLocal(root, func(pg traversal.Progress, n datamodel.Node) error {
+				if n.Kind() == datamodel.Kind_Link {
+					return nil
+				}
+				v := val(n)
+				agree(pg.Path, v, true, "WalkLocal visit")
+				c.Count("local_visits_resolved", 1)
+				keep = append(keep, kept{pg.Path, pg.Path.String(), v})
+				return nil
+			})
+		})
+		if lerr != nil {
+			c.Deviate("C14:local-walk-error", fmt.Sprintf("WalkLocal ended with %v", lerr))
+		}
+	}
 	// paths kept from the visits still mean the same after the walk
 	for _, k := range keep {
 		c.Count("kept_paths_rechecked", 1)
